@@ -581,7 +581,7 @@ func (e *vE2EEnv) warmHLS(stop chan struct{}) error {
 		}
 	}
 	ask()
-	deadline := time.Now().Add(15 * time.Second)
+	deadline := time.Now().Add(40 * time.Second)
 	for {
 		l, err := e.p.hlsServer.APIMuxersList()
 		if err == nil && len(l.Items) >= len(vE2ERNames) {
@@ -1896,7 +1896,9 @@ func TestVerifC03E2E(t *testing.T) {
 	// publisher of another attempt leaving): a deadlock of the unchanged code, see design_notes/C03.md
 	for _, w := range []*vE2EEnv{e, eB} {
 		if err = w.warmHLS(stopBases); err != nil {
-			t.Fatalf("hls warm-up (%s): %v", w.world, err)
+			// not fatal: the attempts still run (under their watchdog)
+			t.Logf("hls warm-up (%s): %v", w.world, err)
+			out.extra["hls_warmup_incomplete:"+w.world] = err.Error()
 		}
 	}
 
